@@ -5,6 +5,8 @@ From Coq Require Import ZArith.
 From Pcfg Require Import Expand ExpandProofs Session SessionProofs.
 From Pcfg Require Import KernelRt ExpandRt ExpandGenProofs.
 From PcfgGen Require Import Expand_gen.
+From Pcfg Require Import SessionRt SessionModel SessionModelProofs SessionGenProofs.
+From PcfgGen Require Import Session_gen.
 Import ListNotations.
 
 (* the session loop: each pre-terminal writes the first l of its guesses, the
@@ -89,7 +91,70 @@ Proof.
         (conj source_example_limit source_example_markov))).
 Qed.
 
+
+(* ---- translator tie of the session loop itself: gen/Session_gen.v is the translation of the
+   Python text of CrackingSession.run (harness/translate_session.py, redone on every run; it
+   equals SessionModel.m_run in every world: C12_source_run_is_model).  In EVERY world in
+   which nobody asks to quit ([quiet_world]: the queue hands out the pre-terminals [pending]
+   one by one, the quit flag reads False, create_guesses meets the contract proved of it
+   above - the first `limit` guesses of the expansion, all for None / 0, and their number -
+   and saving / the keyboard thread do not touch the queue), a new session with --limit l
+   (None, 0 = no limit, n >= 1) and fuel above the number of pre-terminals writes exactly
+   what the model [limited] writes: `if limit:`, `limit = limit - num_generated_guesses` and
+   `if limit <= 0: break` are the source's *)
+Theorem C09_source_run_is_limited :
+  forall (W Item Pt : Type) (new_queue restore_queue : W -> W) (queue_next : W -> option Item * W)
+         (queue_update_save_config : W -> W) (item_pt : Item -> Pt)
+         (create_guesses : Pt -> bool -> option Z -> W -> sres Z * list nat * W)
+         (restore_omen : Z -> W -> sres Z * list nat * W) (read_should_exit : W -> bool * W)
+         (get_omen_exit : W -> bool) (get_omen_guess_num : W -> Z) (cfg_has_omen_number : W -> bool)
+         (cfg_omen_number : W -> Z) (cfg_remove_omen_number : W -> W) (cfg_set_omen_number : Z -> W -> W)
+         (write_save_file : W -> sres unit * W) (start_keypress_thread : W -> W)
+         (pending : W -> list Item) (expansion : Pt -> list nat),
+  quiet_world queue_next queue_update_save_config create_guesses read_should_exit cfg_set_omen_number
+              write_save_file start_keypress_thread pending expansion ->
+  forall (l : option nat) (fuel : nat) (w : W), length (pending (new_queue w)) < fuel ->
+  exists w',
+    py_cracking_run new_queue restore_queue queue_next queue_update_save_config item_pt create_guesses restore_omen
+                    read_should_exit get_omen_exit get_omen_guess_num cfg_has_omen_number cfg_omen_number
+                    cfg_remove_omen_number cfg_set_omen_number write_save_file start_keypress_thread
+                    fuel false (zlimit l) w =
+    (SOk tt, limited (qgroups item_pt pending expansion (new_queue w)) l, w').
+Proof. exact (@source_run_is_limited). Qed.
+
+(* C09_limit_exact transported to the source: exactly the first N lines, min(N, total) *)
+Theorem C09_source_limit_exact :
+  forall (W Item Pt : Type) (new_queue restore_queue : W -> W) (queue_next : W -> option Item * W)
+         (queue_update_save_config : W -> W) (item_pt : Item -> Pt)
+         (create_guesses : Pt -> bool -> option Z -> W -> sres Z * list nat * W)
+         (restore_omen : Z -> W -> sres Z * list nat * W) (read_should_exit : W -> bool * W)
+         (get_omen_exit : W -> bool) (get_omen_guess_num : W -> Z) (cfg_has_omen_number : W -> bool)
+         (cfg_omen_number : W -> Z) (cfg_remove_omen_number : W -> W) (cfg_set_omen_number : Z -> W -> W)
+         (write_save_file : W -> sres unit * W) (start_keypress_thread : W -> W)
+         (pending : W -> list Item) (expansion : Pt -> list nat),
+  quiet_world queue_next queue_update_save_config create_guesses read_should_exit cfg_set_omen_number
+              write_save_file start_keypress_thread pending expansion ->
+  forall (n fuel : nat) (w : W), n >= 1 -> length (pending (new_queue w)) < fuel ->
+  let out :=
+    snd (fst (py_cracking_run new_queue restore_queue queue_next queue_update_save_config item_pt create_guesses
+                restore_omen read_should_exit get_omen_exit get_omen_guess_num cfg_has_omen_number cfg_omen_number
+                cfg_remove_omen_number cfg_set_omen_number write_save_file start_keypress_thread
+                fuel false (Some (Z.of_nat n)) w)) in
+  out = firstn n (concat (qgroups item_pt pending expansion (new_queue w))) /\
+  length out = Nat.min n (length (concat (qgroups item_pt pending expansion (new_queue w)))).
+Proof. exact (@source_limit_exact). Qed.
+
+(* the hypotheses are satisfiable (the queue is a list of groups, nobody quits, saving does
+   nothing) and the translated function computes: C09_example on the source *)
+Theorem C09_source_run_example :
+  quiet_world qw_next (fun w => w) qw_create (fun w : list (list nat) => (false, w)) (fun _ w => w)
+              (fun w => (SOk tt, w)) (fun w => w) (fun w => w) (fun gs : list nat => gs) /\
+  qw_run 6 false (Some 4%Z) [[1;2]; []; []; [3;4;5]; [6]] = (SOk tt, [1;2;3;4], [[6]]).
+Proof. exact (conj list_world_quiet (proj1 list_world_limit_example)). Qed.
+
 Print Assumptions C09_limit_exact.
 Print Assumptions C09_limit_inside_preterminal.
 Print Assumptions C09_source_recursive_guesses_is_model.
 Print Assumptions C09_source_limit_inside_preterminal.
+Print Assumptions C09_source_run_is_limited.
+Print Assumptions C09_source_limit_exact.
